@@ -35,6 +35,16 @@ type WarnTok struct {
 type PCfg struct {
 	Rl string `json:"rl"`
 	El string `json:"el"`
+	// Ab: `autobind:` lists the model output package itself: "none" | "model" (the package only holds a doc
+	// file next to models_gen.go) | "hand" (it also holds a hand-written model a schema type binds to)
+	Ab string `json:"ab"`
+}
+
+func (c PCfg) ab() string {
+	if c.Ab == "" {
+		return "none"
+	}
+	return c.Ab
 }
 
 type PState struct {
@@ -42,6 +52,7 @@ type PState struct {
 	Texists map[string]bool               `json:"texists"`
 	Cfg     PCfg                          `json:"cfg"`
 	Meth    map[string]map[string]MethRec `json:"meth"`
+	Root    string                        `json:"root"` // declaration of the root resolver type in resolver.go: "gen" | root token
 	Helpers map[string][]string           `json:"helpers"`
 	Imports map[string][]string           `json:"imports"`
 	Warn    map[string][]WarnTok          `json:"warn"`
@@ -54,6 +65,7 @@ type PState struct {
 
 type Ideal struct {
 	Meth    map[string]map[string]MethRec `json:"meth"`
+	Root    string                        `json:"root"`
 	Helpers map[string][]string           `json:"helpers"`
 	Imports map[string][]string           `json:"imports"`
 	Warn    map[string][]WarnTok          `json:"warn"`
@@ -71,6 +83,7 @@ type PAction struct {
 	I        string   `json:"i"`
 	Sf       string   `json:"sf"`
 	En       string   `json:"en"`
+	Rt       string   `json:"rt"`
 	E        *MethRec `json:"e"`
 	Devs     []string `json:"devs"`
 	Regen    []string `json:"regen"`
@@ -87,6 +100,8 @@ func (a PAction) String() string {
 		return fmt.Sprintf("AddHelper(%s,%s)", a.F, a.H)
 	case "Resave":
 		return fmt.Sprintf("Resave(%s,%s)", a.F, a.En)
+	case "EditRoot":
+		return fmt.Sprintf("EditRoot(%s)", a.Rt)
 	case "AddImport":
 		return fmt.Sprintf("AddImport(%s,%s,%s)", a.F, a.P, a.I)
 	case "AddField", "MoveField":
@@ -108,6 +123,7 @@ func (m MethRec) exists() bool { return m.Body != "none" }
 // Obs is the projection of the real resolver files onto the abstract state.
 type Obs struct {
 	Meth    map[string]map[string]MethRec
+	Root    string // root resolver type declared in resolver.go: "gen" | root token | "none" | "?changed"
 	Helpers map[string][]string
 	Imports map[string][]string
 	Warn    map[string][]WarnTok
@@ -134,12 +150,13 @@ type Conc struct {
 	docTok  map[string]string // raw doc text -> token
 	helpTok map[string]struct{ tok, file string }
 	helpSrc map[string][]string // tok|file -> normalised decl texts
+	rootTok map[string]string   // normalised text of a customised root struct declaration -> root token
 }
 
 func NewConc(root, base string, seed int64, pairs, files []string) *Conc {
 	return &Conc{Root: root, Base: base, Seed: seed, Pairs: sortedCopy(pairs), Files: sortedCopy(files),
 		bodyTok: map[string]string{}, docTok: map[string]string{},
-		helpTok: map[string]struct{ tok, file string }{}, helpSrc: map[string][]string{}}
+		helpTok: map[string]struct{ tok, file string }{}, helpSrc: map[string][]string{}, rootTok: map[string]string{}}
 }
 
 func (c *Conc) RFiles() []string { return append(append([]string{}, c.Files...), "resolver") }
@@ -151,8 +168,8 @@ func (c *Conc) RPath(rfile string) string {
 	return filepath.Join(c.Root, "graph", rfile+".resolvers.go")
 }
 
-// ConfigYAML renders gqlgen.yml for a Project.tla configuration.
-func ConfigYAML(cfg PCfg, skipValidation bool) string {
+// ConfigYAML renders gqlgen.yml for a Project.tla configuration (base = import path of the project root).
+func ConfigYAML(cfg PCfg, skipValidation bool, base string) string {
 	var sb strings.Builder
 	sb.WriteString("schema: [\"*.graphqls\"]\n")
 	if cfg.El == "follow" {
@@ -166,6 +183,10 @@ func ConfigYAML(cfg PCfg, skipValidation bool) string {
 	} else {
 		sb.WriteString("resolver:\n  filename: graph/resolver.go\n  type: Resolver\n  package: graph\n")
 	}
+	if cfg.ab() != "none" {
+		// hand-written models are kept next to the generated ones: the model output package is autobound
+		fmt.Fprintf(&sb, "autobind:\n  - %q\n", base+"/graph/model")
+	}
 	fmt.Fprintf(&sb, "skip_mod_tidy: true\nskip_validation: %v\nomit_gqlgen_version_in_file_notice: true\n", skipValidation)
 	return sb.String()
 }
@@ -174,7 +195,12 @@ func ConfigYAML(cfg PCfg, skipValidation bool) string {
 func (c *Conc) WriteSchema(s *PState) error {
 	var base strings.Builder
 	base.WriteString("directive @goField(forceResolver: Boolean, name: String, omittable: Boolean) on INPUT_FIELD_DEFINITION | FIELD_DEFINITION\n\n")
-	base.WriteString("type Query {\n  keep: Boolean\n}\n")
+	if s.Cfg.ab() == "hand" {
+		// Account is hand-written in graph/model/account.go and found through autobind of the model package
+		base.WriteString("type Query {\n  keep: Boolean\n  account(id: ID!): Account\n}\n\ntype Account {\n  id: ID!\n  name: String!\n}\n")
+	} else {
+		base.WriteString("type Query {\n  keep: Boolean\n}\n")
+	}
 	types := []string{}
 	for t, ex := range s.Texists {
 		if ex {
@@ -229,8 +255,23 @@ func (c *Conc) Create(s *PState) error {
 	if err := os.MkdirAll(filepath.Join(c.Root, "graph"), 0o755); err != nil {
 		return err
 	}
-	if err := os.WriteFile(filepath.Join(c.Root, "gqlgen.yml"), []byte(ConfigYAML(s.Cfg, true)), 0o644); err != nil {
+	if err := os.WriteFile(filepath.Join(c.Root, "gqlgen.yml"), []byte(ConfigYAML(s.Cfg, true, c.Base)), 0o644); err != nil {
 		return err
+	}
+	if ab := s.Cfg.ab(); ab != "none" {
+		// an autobound package must exist before the first generation: it holds hand-written Go
+		if err := os.MkdirAll(filepath.Join(c.Root, "graph", "model"), 0o755); err != nil {
+			return err
+		}
+		files := map[string]string{"doc.go": "// Package model holds the hand-written models; gqlgen adds models_gen.go next to this file.\npackage model\n"}
+		if ab == "hand" {
+			files["account.go"] = "package model\n\n// Account is maintained by hand and bound to the GraphQL type Account through autobind.\ntype Account struct {\n\tID   string\n\tName string\n}\n"
+		}
+		for n, txt := range files {
+			if err := os.WriteFile(filepath.Join(c.Root, "graph", "model", n), []byte(txt), 0o644); err != nil {
+				return err
+			}
+		}
 	}
 	return c.WriteSchema(s)
 }
@@ -580,6 +621,130 @@ func (c *Conc) AddHelperDecls(rfile, tok string) error {
 	return nil
 }
 
+// ---- the root resolver struct -------------------------------------------------------
+//
+// "The user customised `type Resolver struct{}`": fields, embedded types, a doc
+// comment (pool.go rootPool). The projection compares the whole declaration text
+// (struct type with its field list, tags and inner comments; not the doc comment,
+// which is not code of the declaration), so an emptied struct is not mistaken for
+// the user's.
+
+var reRootGen = regexp.MustCompile(`^type Resolver struct\s*\{\s*\}$`)
+
+// rootToken maps the normalised text of a `type Resolver ...` declaration to "gen" (the
+// template's empty struct), the root token the user wrote, or "?changed".
+func (c *Conc) rootToken(text string, notes *[]string) string {
+	if reRootGen.MatchString(text) {
+		return "gen"
+	}
+	if tok, ok := c.rootTok[text]; ok {
+		return tok
+	}
+	*notes = append(*notes, "root resolver type: declaration is neither the template's nor one the user wrote:\n"+text)
+	return "?changed"
+}
+
+// ensureImports adds the missing ones of paths to the file's imports (like the user's editor would).
+func ensureImports(src []byte, paths ...string) []byte {
+	for _, p := range paths {
+		q := fmt.Sprintf("%q", p)
+		fset := token.NewFileSet()
+		f, err := parser.ParseFile(fset, "x.go", src, parser.ImportsOnly)
+		if err != nil {
+			return src
+		}
+		have := false
+		for _, is := range f.Imports {
+			if is.Path.Value == q && is.Name == nil {
+				have = true
+			}
+		}
+		if have {
+			continue
+		}
+		s := string(src)
+		if i := strings.Index(s, "import (\n"); i >= 0 {
+			i += len("import (\n")
+			s = s[:i] + "\t" + q + "\n" + s[i:]
+		} else {
+			// no import block (resolver.go of the follow-schema layout): after the package clause
+			j := fset.Position(f.Name.End()).Offset
+			if k := strings.Index(s[j:], "\n"); k >= 0 {
+				j += k + 1
+			} else {
+				s += "\n"
+				j = len(s)
+			}
+			s = s[:j] + "\nimport (\n\t" + q + "\n)\n" + s[j:]
+		}
+		src = []byte(s)
+	}
+	return src
+}
+
+// SetRoot rewrites the declaration of the root resolver type in resolver.go to the
+// concretisation of root token tok (doc comment included), adds the imports its field
+// types need and gofmt's the file.
+func (c *Conc) SetRoot(tok string) error {
+	path := c.RPath("resolver")
+	src, fenc, err := readSrc(path)
+	if err != nil {
+		return err
+	}
+	fset := token.NewFileSet()
+	f, err := parser.ParseFile(fset, path, src, parser.ParseComments)
+	if err != nil {
+		return err
+	}
+	var gd *ast.GenDecl
+	for _, d := range f.Decls {
+		if g, ok := d.(*ast.GenDecl); ok && g.Tok == token.TYPE && len(g.Specs) > 0 {
+			if ts, ok := g.Specs[0].(*ast.TypeSpec); ok && ts.Name.Name == "Resolver" {
+				gd = g
+			}
+		}
+	}
+	if gd == nil {
+		return fmt.Errorf("resolver.go: no declaration of the root resolver type")
+	}
+	start := fset.Position(gd.Pos()).Offset
+	if gd.Doc != nil {
+		start = fset.Position(gd.Doc.Pos()).Offset
+	}
+	end := fset.Position(gd.End()).Offset
+	text := c.rootText(tok)
+	out := append(append(append([]byte{}, src[:start]...), text...), src[end:]...)
+	var need []string
+	for _, p := range []string{"sync", "fmt", "context"} {
+		if strings.Contains(text, p+".") {
+			need = append(need, p)
+		}
+	}
+	out = ensureImports(out, need...)
+	fm, err := format.Source(out)
+	if err != nil {
+		return fmt.Errorf("gofmt after EditRoot: %v\n%s", err, out)
+	}
+	if err := os.WriteFile(path, encode(fm, fenc), 0o644); err != nil {
+		return err
+	}
+	// register the declaration text as it appears in the formatted file
+	fset2 := token.NewFileSet()
+	f2, err := parser.ParseFile(fset2, path, fm, parser.ParseComments)
+	if err != nil {
+		return err
+	}
+	d := c.projectDecls(fset2, fm, f2.Decls, false, &[]string{})
+	if d.root == "" || reRootGen.MatchString(d.root) {
+		return fmt.Errorf("EditRoot(%s): customised root struct not found after the edit", tok)
+	}
+	if old, ok := c.rootTok[d.root]; ok && old != tok {
+		return fmt.Errorf("pool texts of root tokens %s and %s coincide", old, tok)
+	}
+	c.rootTok[d.root] = tok
+	return nil
+}
+
 func normDecl(s string) string {
 	lines := strings.Split(s, "\n")
 	for i := range lines {
@@ -647,7 +812,7 @@ type declObs struct {
 	meth    map[string]MethRec
 	helpers map[string][]string // helper name -> normalised decl texts found
 	dup     []string
-	root    bool // a declaration `type Resolver ...` is present
+	root    string // normalised source text of the declaration `type Resolver ...` ("" = not declared here)
 }
 
 // projectDecls maps declarations to tokens. Boilerplate the generator owns
@@ -674,7 +839,8 @@ func (c *Conc) projectDecls(fset *token.FileSet, src []byte, decls []ast.Decl, w
 		}
 		if gd, ok := d.(*ast.GenDecl); ok && gd.Tok == token.TYPE && len(gd.Specs) > 0 {
 			if ts, ok := gd.Specs[0].(*ast.TypeSpec); ok && ts.Name.Name == "Resolver" {
-				o.root = true
+				// the whole declaration (struct type with its field list, tags, comments inside), without the doc comment
+				o.root = normDecl(string(src[fset.Position(gd.Pos()).Offset:fset.Position(gd.End()).Offset]))
 			}
 		}
 		if n := declHelperName(d); n != "" {
@@ -808,7 +974,7 @@ func (c *Conc) helperTokens(found map[string][]string, rfile string, notes *[]st
 
 // Project reads the real resolver files and projects them onto the abstract state.
 func (c *Conc) Project() *Obs {
-	o := &Obs{Meth: map[string]map[string]MethRec{}, Helpers: map[string][]string{}, Imports: map[string][]string{}, Warn: map[string][]WarnTok{}, Enc: map[string]string{}, Ok: true}
+	o := &Obs{Root: "none", Meth: map[string]map[string]MethRec{}, Helpers: map[string][]string{}, Imports: map[string][]string{}, Warn: map[string][]WarnTok{}, Enc: map[string]string{}, Ok: true}
 	for _, rf := range c.RFiles() {
 		o.Meth[rf] = map[string]MethRec{}
 		for _, p := range c.Pairs {
@@ -843,6 +1009,9 @@ func (c *Conc) Project() *Obs {
 			o.Meth[rf][p] = m
 		}
 		o.Helpers[rf] = c.helperTokens(d.helpers, rf, &o.Notes)
+		if rf == "resolver" && d.root != "" {
+			o.Root = c.rootToken(d.root, &o.Notes)
+		}
 		// imports: the user's tokens only; the generator's own imports are not user code
 		seen := map[string]int{}
 		for _, is := range f.Imports {
@@ -883,8 +1052,8 @@ func (c *Conc) Project() *Obs {
 				for p, m := range wd.meth {
 					o.Warn[rf] = append(o.Warn[rf], WarnTok{K: "m", ID: p, Body: m.Body, Named: m.Named, Uses: m.Uses})
 				}
-				if wd.root {
-					o.Warn[rf] = append(o.Warn[rf], WarnTok{K: "r", ID: "Resolver", Body: "-", Uses: []string{}})
+				if wd.root != "" {
+					o.Warn[rf] = append(o.Warn[rf], WarnTok{K: "r", ID: c.rootToken(wd.root, &o.Notes), Body: "-", Uses: []string{}})
 				}
 				for _, h := range c.helperTokens(wd.helpers, rf, &o.Notes) {
 					o.Warn[rf] = append(o.Warn[rf], WarnTok{K: "h", ID: h, Body: "-", Uses: []string{}})
@@ -912,13 +1081,19 @@ func methKey(m MethRec, withDoc bool) string {
 
 // Diff compares an observation with the resolver part of an abstract state
 // and lists the differing components ("meth:a:Query_f1:body", "imports:a", ...).
-func Diff(o *Obs, meth map[string]map[string]MethRec, helpers, imports map[string][]string, warn map[string][]WarnTok, ok bool) []string {
+func Diff(o *Obs, meth map[string]map[string]MethRec, root string, helpers, imports map[string][]string, warn map[string][]WarnTok, ok bool) []string {
 	var d []string
 	if o.Ok != ok {
 		d = append(d, fmt.Sprintf("parse: files parse=%v, specification says %v", o.Ok, ok))
 	}
 	if !ok || !o.Ok {
 		return d
+	}
+	if root == "" {
+		root = "gen"
+	}
+	if o.Root != root {
+		d = append(d, fmt.Sprintf("root: resolver.go declares the root resolver type as %s, want %s", o.Root, root))
 	}
 	for rf, ms := range meth {
 		for p, want := range ms {
@@ -969,11 +1144,11 @@ func Diff(o *Obs, meth map[string]map[string]MethRec, helpers, imports map[strin
 }
 
 func (s *PState) DiffObs(o *Obs) []string {
-	return Diff(o, s.Meth, s.Helpers, s.Imports, s.Warn, s.Ok)
+	return Diff(o, s.Meth, s.Root, s.Helpers, s.Imports, s.Warn, s.Ok)
 }
 
 func (i *Ideal) DiffObs(o *Obs) []string {
-	return Diff(o, i.Meth, i.Helpers, i.Imports, i.Warn, i.Ok)
+	return Diff(o, i.Meth, i.Root, i.Helpers, i.Imports, i.Warn, i.Ok)
 }
 
 // ---- snapshots -----------------------------------------------------------------------
